@@ -106,6 +106,9 @@ func C14(tier string) int {
 		c string
 	}{
 		{1, "h q0;y q0"},
+		{1, "y q0;h q0"},
+		{2, "y q1;cx q1 q0;h q1"},
+		{2, "x q0;iswap q0 q1;h q1"},
 		{2, "h q0;cx q0 q1"},
 		{2, "cx q1 q0;h q1;y q0"},
 		{2, "h q0;y q1;cx q0 q1;t q0"},
